@@ -237,6 +237,7 @@ func websocketServerFile(genpkg string, svc *expr.HTTPServiceExpr) *codegen.File
 		{Path: "net/http"},
 		{Path: "sync"},
 		{Path: "time"},
+		{Path: "unicode/utf8"},
 		{Path: "github.com/gorilla/websocket"},
 		codegen.GoaImport(""),
 		codegen.GoaNamedImport("http", "goahttp"),
@@ -270,6 +271,7 @@ func websocketClientFile(genpkg string, svc *expr.HTTPServiceExpr) *codegen.File
 		{Path: "net/http"},
 		{Path: "sync"},
 		{Path: "time"},
+		{Path: "unicode/utf8"},
 		{Path: "github.com/gorilla/websocket"},
 		codegen.GoaImport(""),
 		codegen.GoaNamedImport("http", "goahttp"),
